@@ -19,6 +19,9 @@ class VErr(Exception):
         Exception.__init__(self, "e%d" % n)
         self.n = n
 
+    def __bool__(self):          # unusual but legal: a falsy exception object (odd codes)
+        return self.n % 2 == 0
+
 
 class CleanupFailed(BaseException):
     """raised by the suspended generator when it is closed (not an Exception: nothing in asynq may swallow it silently
